@@ -48,6 +48,8 @@ pub struct Out {
     pub direct_checks: u64,
     pub notes: Vec<String>,
     pub exhaustive: bool,
+    /// optional classification of an operation (by index), used to match recorded known findings structurally
+    pub keys: BTreeMap<usize, String>,
 }
 impl Out {
     /// one operation executed by the implementation; `nontrivial` per the family's stated rule
@@ -64,6 +66,11 @@ impl Out {
         let imp = crate::exec_line(&line);
         self.case(line, imp.clone(), nontrivial);
         imp
+    }
+    /// like `op`, with a classification key attached to the case
+    pub fn op_keyed(&mut self, line: String, nontrivial: bool, key: &str) -> String {
+        self.keys.insert(self.ops.len(), key.to_string());
+        self.op(line, nontrivial)
     }
     pub fn stat(&mut self, k: &str) { *self.stats.entry(k.to_string()).or_insert(0) += 1; }
     pub fn stat_n(&mut self, k: &str, n: u64) { *self.stats.entry(k.to_string()).or_insert(0) += n; }
@@ -90,6 +97,7 @@ impl Out {
             "direct_failures": self.failures,
             "notes": self.notes,
             "exhaustive": self.exhaustive,
+            "keys": self.keys.iter().map(|(k, v)| (k.to_string(), v.clone())).collect::<BTreeMap<String, String>>(),
         });
         std::fs::write(format!("{}/meta.json", dir), serde_json::to_string_pretty(&meta).unwrap()).unwrap();
     }
